@@ -129,7 +129,9 @@ type muxSession struct {
 	cleanups []func()
 }
 
-func (s *muxSession) logf(f string, a ...interface{}) { s.trace = append(s.trace, fmt.Sprintf(f, a...)) }
+func (s *muxSession) logf(f string, a ...interface{}) {
+	s.trace = append(s.trace, fmt.Sprintf(f, a...))
+}
 
 func newMuxSession(c muxCase) (*muxSession, *ev.Failure) {
 	s := &muxSession{c: c, ctl: &muxController{holdCaller: map[uint64]chan struct{}{}}}
